@@ -24,7 +24,7 @@ def Attr.get (a : Attr) (k : Nat) : Option Nat := List.lookup k a
 
 /-- do the stored key `e` and the queried pair `f` denote the same edge of a layer of kind `k` -/
 def same (k : Kind) (e f : Nat × Nat) : Bool :=
-  e == f || (k == .und && e == (f.2, f.1))
+  (e.1 == f.1 && e.2 == f.2) || (k == .und && e.1 == f.2 && e.2 == f.1)
 
 /-- a networkx Graph (`und`) or DiGraph (`dir`) -/
 structure Layer where
